@@ -58,6 +58,34 @@ func numberGroups(a *Ast, o Opts) (map[*Ast]int, map[string]int, int) {
 	nums := map[*Ast]int{}
 	byName := map[string]int{}
 	next := 1
+	if o.RE2 || o.ECMA {
+		// ECMAScript and RE2 keep the order of appearance (parser.go: maintainCaptureOrder): named and
+		// unnamed groups are numbered together by their opening parenthesis
+		var walkOrdered func(n *Ast, o Opts)
+		walkOrdered = func(n *Ast, o Opts) {
+			if n.Kind == AOptGroup {
+				o = o.apply(n.On, n.Off)
+			}
+			if n.Kind == AGroup && n.Name == "" && !o.N {
+				nums[n] = next
+				next++
+			}
+			if n.Kind == AGroup && n.Name != "" {
+				if k, ok := byName[n.Name]; ok {
+					nums[n] = k
+				} else {
+					byName[n.Name] = next
+					nums[n] = next
+					next++
+				}
+			}
+			for _, k := range n.Kids {
+				walkOrdered(k, o)
+			}
+		}
+		walkOrdered(a, o)
+		return nums, byName, next
+	}
 	var walk func(n *Ast, o Opts)
 	walk = func(n *Ast, o Opts) {
 		if n.Kind == AOptGroup {
